@@ -650,6 +650,9 @@ func TestVerifC10(t *testing.T) {
 	for _, h := range harness {
 		r.Sanity(false, "%s", h)
 	}
+	if len(harness) > 0 {
+		defer t.Errorf("C10: %d harness error(s), first: %s", len(harness), harness[0])
+	}
 	if skipped > 0 {
 		r.Cap(fmt.Sprintf("%d of %d cases not (fully) explored before the wall-clock budget", skipped, len(cases)))
 	}
